@@ -46,7 +46,10 @@ theorem T2_walker_root_reconstructed (hs : H.Sound) (ps : PageSet Node) (root : 
     (G.runInv_start H ps _ none root S S' steps inhibit) _ hnd (tw_compactUp_log_prefix H _ _ none)
   simp only [List.nil_append] at hinv
   obtain ⟨pages, hc, hpg⟩ := G.conclude_spec H ps hs hS hS' hso hrepR (Or.inl (Or.inl rfl)) hinv hnd
-  exact ⟨w', pages, hw', hc, hpg⟩
+  refine ⟨w', pages, hw', hc, ?_⟩
+  intro o ho
+  obtain ⟨P, pg, d, b, e, hl, hm, hdiff, _⟩ := hpg o ho
+  exact ⟨P, pg, d, b, e, hl, hm, hdiff⟩
 
 /-- non-vacuity: the hypotheses hold for the empty page set … -/
 example : ∃ w' pages, (Walker.start T.term false).runM TH Ex.exPs Ex.exSteps = .ok w' ∧
